@@ -47,6 +47,10 @@ type scenario struct {
 	// while the rest of the sequence arrives, and half of the sequence's orphan control responses
 	// carry ITS system bytes: a control response never completes a data transaction — Reject reason 3
 	AppPrimary bool
+	// LiftBound: (passive, leading Select.req) the connection is built with a 150 ms write bound; once
+	// Selected the application lifts it (UpdateConfigOptions(WithWriteTimeout(0))) and the line then
+	// idles for 400 ms before the rest of the sequence: no stale deadline may fail the answers
+	LiftBound bool
 }
 
 type harness struct {
@@ -191,6 +195,7 @@ func genScenario(t *core.Tape, faulty bool) scenario {
 		}
 	}
 	sc.AppPrimary = !sc.Active && sc.PreSelect && t.Bias("scn", 1, 4)
+	sc.LiftBound = !sc.Active && sc.PreSelect && !sc.AppPrimary && t.Bias("scn", 1, 4)
 	nc := t.Choose("scn", 7)
 	for i := 0; i < nc; i++ {
 		sc.Cuts = append(sc.Cuts, t.Choose("scn", 1<<16))
@@ -207,8 +212,13 @@ func Build(config string) core.BuildFunc {
 		h.sc = genScenario(w.T, config == "faulty")
 		sc := h.sc
 		sess := sc.Session
-		h.r = rig.New(w, rig.Opts{Active: sc.Active, Equip: sc.Equip, T6: sc.T6, T7: 300 * time.Second, T3: 120 * time.Second, QueueSize: sc.Queue,
-			ValidateSession: sc.Validate, SessionID: &sess, T5: time.Second, BackoffInit: 200 * time.Millisecond})
+		var wtoPtr *time.Duration
+		if sc.LiftBound {
+			d := 150 * time.Millisecond
+			wtoPtr = &d
+		}
+		h.r = rig.New(w, rig.Opts{TraceTraffic: w.T.Choose("trace", 4) == 0, Active: sc.Active, Equip: sc.Equip, T6: sc.T6, T7: 300 * time.Second, T3: 120 * time.Second, QueueSize: sc.Queue,
+			ValidateSession: sc.Validate, SessionID: &sess, T5: time.Second, BackoffInit: 200 * time.Millisecond, WriteTimeout: wtoPtr})
 		r := h.r
 		r.P.AutoSelectRsp = -1
 		r.P.AutoLinktest = false
@@ -372,6 +382,36 @@ func definedSType(s byte) bool {
 func (h *harness) transmit() {
 	h.sent = true
 	sc := h.sc
+	if sc.LiftBound && !h.staged {
+		h.staged = true
+		w := h.w
+		h.c.SendFrame(refhsms.Header{Session: sc.Session, SType: refhsms.STSelectReq, Sys: 0x5E1EC7}, nil)
+		var wait func()
+		n := 0
+		wait = func() {
+			n++
+			if !h.r.Selected() || len(h.c.Rx) == 0 {
+				if n > 400 {
+					w.Fail("HARNESS", "never Selected")
+
+					return
+				}
+				w.After(time.Millisecond, "stage-wait", wait)
+
+				return
+			}
+			if err := h.r.C.UpdateConfigOptions(hsms.WithWriteTimeout(0)); err != nil {
+				w.Fail("HARNESS", "UpdateConfigOptions(WithWriteTimeout(0)): %v", err)
+
+				return
+			}
+			w.Probe("write_bound_lifted_at_run_time")
+			w.After(400*time.Millisecond, "idle-after-lifting-the-bound", h.transmit)
+		}
+		w.After(time.Millisecond, "stage-wait", wait)
+
+		return
+	}
 	if sc.AppPrimary && !h.staged {
 		// stage 1: the leading Select.req alone; then the application's primary; then everything else
 		h.staged = true
@@ -419,7 +459,7 @@ func (h *harness) transmit() {
 	if !sc.Active && sc.PreSelect {
 		in = append(in, frame{H: refhsms.Header{Session: sc.Session, SType: refhsms.STSelectReq, Sys: 0x5E1EC7}, Class: "select.req"})
 	}
-	skipFirst := sc.AppPrimary // (already on the wire: stage 1)
+	skipFirst := sc.AppPrimary || sc.LiftBound // (already on the wire: stage 1)
 	for i, f := range sc.Seq {
 		if sc.Active && sc.SelectAt == i {
 			in = append(in, frame{H: refhsms.Header{Session: sc.Session, B3: sc.SelStatus, SType: refhsms.STSelectRsp, Sys: h.sutSelSys}, Class: "select.rsp"})
